@@ -95,12 +95,25 @@ Definition case_agrees (c : case) : bool :=
 (* implementation output satisfies the property; written without the model's search algorithm:
    the reference is ONE fraction holding everything, i.e. the canonical ordered duplicate-free list
    of all hits, cut at the limit *)
+Definition ids_hist (interval : N) (ids : list ID) : hist :=
+  if (0 <? interval)%N
+  then fold_left (fun h i => hist_add (bucket (mid i) interval) 1 h) ids []
+  else [].
+Definition consistent (interval : N) (q : qpr) : bool :=
+  hist_eqb (q_hist q) (ids_hist interval (q_ids q)) && (q_total q =? N.of_nat (length (q_ids q)))%N.
+
 Definition one_fraction (p : params) (fs : list frac) : qpr := frac_search p (p_limit p) (concat fs).
 
 Definition case_spec_ok (c : case) : bool :=
   match c with
   | CMerge dst qs limit interval o impl =>
-      idl_eqb (q_ids impl) (firstn limit (norm o (q_ids dst ++ concat (map q_ids qs))))
+      let all := q_ids dst ++ concat (map q_ids qs) in
+      idl_eqb (q_ids impl) (firstn limit (norm o all))
+      (* when every part counts exactly its own IDs and nothing is cut, the merged Total and
+         histogram count every distinct ID once *)
+      && (negb (forallb (consistent interval) (dst :: qs) && (length all <=? limit)%nat)
+          || ((q_total impl =? N.of_nat (length (norm o all)))%N
+              && hist_eqb (q_hist impl) (ids_hist interval (norm o all))))
   | CEnsured o ids rem impl =>
       match rem with
       | [] => Nat.eqb impl (length ids)
